@@ -11,6 +11,10 @@ ID=${NAME%?}
 IDL=$(echo "$ID" | tr 'A-Z' 'a-z')
 OUT=/verif/sensitivity/$NAME
 mkdir -p "$OUT"
+# PHASE=confirm : only step 1 (does not touch /repo); PHASE=apply : only step 2 (uses the recorded
+# confirmation); default: both
+PHASE=${PHASE:-both}
+if [ "$PHASE" != apply ]; then
 cd "$WT" || exit 2
 git checkout -q -- . 2>/dev/null
 mkdir -p tests; cp "$SEED/demo_$IDL.rs" tests/demo_$IDL.rs
@@ -26,6 +30,10 @@ mv /tmp/demo_$IDL.rs.$$ tests/demo_$IDL.rs
 echo "[$NAME] demo without change: exit $DEMO_WITHOUT (want 0); demo with change: exit $DEMO_WITH (want != 0); existing suite with change: exit $SUITE (want 0) $PASSED"
 CONFIRMED=false
 if [ $DEMO_WITHOUT -eq 0 ] && [ $DEMO_WITH -ne 0 ] && [ $SUITE -eq 0 ]; then CONFIRMED=true; fi
+echo $CONFIRMED > "$OUT/confirmed"
+[ "$PHASE" = confirm ] && exit 0
+fi
+CONFIRMED=$(cat "$OUT/confirmed" 2>/dev/null || echo false)
 # run the checks against /repo with the patch applied
 cd /verif
 git -C /repo diff --quiet || { echo "/repo is dirty, refusing"; exit 2; }
